@@ -128,6 +128,34 @@ func (ev *Ev) specCall(x *ast.CallExpr) Value {
 		as := arraySort(SRef, SBool)
 		u.famSort("alloc", as)
 		return boolV(app("select", u.fam(ev.st, "alloc", as), v.T))
+	case "fresh":
+		v := ev.expr(x.Args[0])
+		as := arraySort(SRef, SBool)
+		u.famSort("alloc", as)
+		oldSt := ev.old
+		if oldSt == nil {
+			oldSt = ev.st
+		}
+		return boolV(and(not(app("=", v.T, "nil")), not(app("select", u.fam(oldSt, "alloc", as), v.T)), app("select", u.fam(ev.st, "alloc", as), v.T)))
+	case "upd":
+		// upd(a, k, v): array/ghost-map update
+		a := ev.expr(x.Args[0])
+		ks, vs, ok := a.S.isArray()
+		if !ok {
+			return ev.errorf(x.Pos(), "upd on a non-array value")
+		}
+		k := ev.expr(x.Args[1])
+		v := ev.expr(x.Args[2])
+		if ks == SRef && k.S != SRef {
+			k = ev.box(k)
+		}
+		if vs == SRef && v.S != SRef {
+			v = ev.box(v)
+		}
+		if vs == SReal && v.S == SInt {
+			v = scalar(toReal(v.T), SReal, nil)
+		}
+		return Value{K: vScalar, T: app("store", a.T, k.T, v.T), S: a.S, Typ: a.Typ}
 	case "held":
 		k := u.lockKeySpec(ev, x.Args[0])
 		if ev.st.held[k] {
@@ -385,6 +413,9 @@ func (ev *Ev) applySpec(sf *SpecFunc, x *ast.CallExpr) Value {
 	if sub.pkg == nil {
 		sub.pkg = ev.pkg
 	}
+	if sf.Func {
+		return ev.applySpecFn(sf, sub, x)
+	}
 	for i, p := range sf.Params {
 		v := ev.expr(x.Args[i])
 		if p.Type != nil {
@@ -499,4 +530,69 @@ func (u *Unit) lockKeySpec(ev *Ev, e ast.Expr) string {
 	}
 	base := ev.expr(sel.X)
 	return base.T + "." + sel.Sel.Name
+}
+
+// applySpecFn: the spec function becomes an SMT function symbol with a definitional axiom (pattern = the application).
+func (ev *Ev) applySpecFn(sf *SpecFunc, sub *Ev, x *ast.CallExpr) Value {
+	u := ev.u
+	fname := quote("spec:" + sf.Name)
+	var sorts []Sort
+	var args []string
+	var ptypes []types.Type
+	for i, p := range sf.Params {
+		t := sub.resolveType(p.Type)
+		s := u.sortOf(t)
+		if s == "" || s == SFP {
+			return ev.errorf(x.Pos(), "specfn %s: parameter %s must be a scalar", sf.Name, p.Name)
+		}
+		v := ev.expr(x.Args[i])
+		if s == SReal && v.S == SInt {
+			v = scalar(toReal(v.T), SReal, t)
+		}
+		sorts = append(sorts, s)
+		args = append(args, v.T)
+		ptypes = append(ptypes, t)
+	}
+	var rt types.Type = types.Typ[types.Bool]
+	if sf.Result != nil {
+		rt = sub.resolveType(sf.Result)
+	}
+	rs := u.sortOf(rt)
+	key := "specfn:" + sf.Name
+	if !u.declared[key] {
+		u.declared[key] = true
+		u.declareFun(fname, sorts, rs)
+		// definitional axiom over bound variables
+		def := &Ev{u: u, st: &State{env: map[types.Object]Value{}, heap: map[string]string{}, held: map[string]bool{}, lets: map[string]Value{}}, spec: true, binds: map[string]Value{}, pkg: sub.pkg, where: "specfn " + sf.Name, depth: ev.depth + 1}
+		var decls, names []string
+		for i, p := range sf.Params {
+			u.nfresh++
+			vn := fmt.Sprintf("%s$%d", p.Name, u.nfresh)
+			decls = append(decls, fmt.Sprintf("(%s %s)", vn, sorts[i]))
+			names = append(names, vn)
+			def.binds[p.Name] = scalar(vn, sorts[i], ptypes[i])
+		}
+		body := def.expr(sf.Body)
+		if len(def.st.heap) > 0 {
+			ev.errorf(x.Pos(), "specfn %s: body must not read the heap", sf.Name)
+		}
+		appl := app(fname, names...)
+		u.condAxioms = append(u.condAxioms, condAxiom{sym: "(" + fname + " ", ax: fmt.Sprintf("(forall (%s) (! (= %s %s) :pattern (%s)))", strings.Join(decls, " "), appl, body.T, appl)})
+	}
+	ground := true
+	for _, a := range args {
+		if strings.Contains(a, "$") {
+			ground = false
+		}
+	}
+	appT := app(fname, args...)
+	if ground && !u.declared["inst:"+appT] {
+		u.declared["inst:"+appT] = true
+		inst := &Ev{u: u, st: &State{env: map[types.Object]Value{}, heap: map[string]string{}, held: map[string]bool{}, lets: map[string]Value{}}, spec: true, binds: map[string]Value{}, pkg: sub.pkg, where: "specfn " + sf.Name, depth: ev.depth + 1}
+		for i, p := range sf.Params {
+			inst.binds[p.Name] = scalar(args[i], sorts[i], ptypes[i])
+		}
+		u.axioms = append(u.axioms, app("=", appT, inst.expr(sf.Body).T))
+	}
+	return scalar(appT, rs, rt)
 }
